@@ -1,130 +1,158 @@
-(* Model/StreamGenLib.v — property C04: the vocabulary of the statement-by-statement
-   translations that tools/go2v (extractors c04concat, c04conv, c04handle, c04keys, c04copy)
-   emits into coq/Gen/C04*.v: what a Go operation of the translated fragment means on the
-   data of Model/Paradigm.v / Model/StreamOps.v.  Definitions only.
+(* Model/StreamGenLib.v — property C08: vocabulary of the translator tie "streamcode".
 
-   Readers.  A [stream X] is the list of items a reader still has to deliver.  One Recv:
-       []            -> io.EOF                         (the reader stays empty)
-       Bad e :: s'   -> the error item e               (the reader goes on with s')
-       Val x :: s'   -> the chunk x, nil
-   The translator turns `x, err := sr.Recv()` into a [match] on the reader with these three
-   cases and resolves the tests `err != nil`, `err == io.EOF` statically in each of them.
+   tools/go2v/c08_streamcode.go translates a handful of small methods of schema/stream.go
+   statement by statement into Gallina (Gen/StreamCode.v).  This file says what a Go slice
+   operation, a Go (chunk, error) pair, a side effect on another object mean on the data of
+   Model/Stream.v.  Definitions only; Proofs/GenAgreeStreamCode.v proves the generated functions
+   equal to the operations of Model/Stream.v that the C08 theorems are about. *)
+From Eino Require Import Base.Util Model.Stream.
 
-   Errors are classes ([N], Model/Paradigm.v), never messages. *)
-From Eino Require Import Base.Util Model.Paradigm Model.StreamOps.
+(* Go error values that the translated code distinguishes *)
+Inductive goerr : Type :=
+| ENil                       (* nil *)
+| EEOF                       (* io.EOF *)
+| ENoValue (wrapped : bool)  (* schema.ErrNoValue, possibly wrapped with %w *)
+| EErr (e : N).              (* any other error, by class *)
 
-(* ---------------------------------------------------------------- slices *)
-(* l[i]: an index out of range is a run-time panic *)
-Definition go_idx {X} (l : list X) (i : nat) : res X :=
-  match nth_error l i with Some x => Ok x | None => Panic end.
-
-(* for _, v := range l { s, err = f(s, v); if err != nil { return …, err } } *)
-Fixpoint fold_res {S V} (f : S -> V -> res S) (l : list V) (s : S) : res S :=
-  match l with
-  | [] => Ok s
-  | v :: l' => do s' <- f s v; fold_res f l' s'
+Definition goerr_eqb (a b : goerr) : bool :=          (* Go's == on error values *)
+  match a, b with
+  | ENil, ENil | EEOF, EEOF => true
+  | ENoValue false, ENoValue false => true            (* a wrapped error is a different value *)
+  | EErr x, EErr y => N.eqb x y
+  | _, _ => false
+  end.
+Definition errors_is (a target : goerr) : bool :=     (* errors.Is(a, target) *)
+  match a, target with
+  | ENoValue _, ENoValue false => true
+  | _, _ => goerr_eqb a target
   end.
 
-(* ---------------------------------------------------------------- convert functions *)
-(* what the function handed to schema.StreamReaderWithConvert returns for one chunk:
-   (y, nil) / (_, schema.ErrNoValue) / (_, another error) *)
-Inductive conv (Y : Type) : Type :=
-| CVal (y : Y)
-| CNoValue
-| CErr (e : N).
-Arguments CVal {Y} y.
-Arguments CNoValue {Y}.
-Arguments CErr {Y} e.
+(* a Go (chunk, err) pair *)
+Definition gopair : Type := (N * goerr)%type.
+Definition pair_of_item (x : item) : gopair :=
+  match x with IVal v => (v, ENil) | IErr e => (0%N, EErr e) end.
+Definition eof_pair : gopair := (0%N, EEOF).
+(* what a reader that is handed the pair sees: an item of the model (the chunk beside a non-nil
+   error is not part of an item), the end of the stream, or something the model has no name for *)
+Inductive seen : Type := SeenItem (x : item) | SeenEOF | SeenOther.
+Definition see (p : gopair) : seen :=
+  match p with
+  | (v, ENil) => SeenItem (IVal v)
+  | (_, EErr e) => SeenItem (IErr e)
+  | (_, EEOF) => SeenEOF
+  | (_, ENoValue _) => SeenOther
+  end.
 
-(* the result of one recv of a reader: a chunk, an error item, io.EOF *)
-Inductive rres (Y : Type) : Type :=
-| RVal (y : Y)
-| RErr (e : N)
-| REOF.
-Arguments RVal {Y} y.
-Arguments RErr {Y} e.
-Arguments REOF {Y}.
+(* user conversion function at the Go level, and its class in the model *)
+Definition goconv : Type := N -> gopair.
+Definition cres_of_go (p : gopair) : cres :=
+  match p with
+  | (v, ENil) => CVal v
+  | (_, EErr e) => CErr e
+  | (_, ENoValue _) => CSkip
+  | (_, EEOF) => CSkip           (* excluded by [conv_ok] *)
+  end.
+Definition cfun_of_go (g : goconv) : cfun := fun v => cres_of_go (g v).
+Definition conv_ok (g : goconv) : Prop := forall v, snd (g v) <> EEOF.
 
-(* everything a consumer receives from a reader whose recv is [recv], read to io.EOF.  Every
-   recv that does not report io.EOF consumes at least one item of the source, so
-   [S (length s)] calls suffice; the bound is explicit and a theorem about [read_all] has to
-   show that it is not reached (the last call returns REOF). *)
-Fixpoint read_all {X Y} (fuel : nat) (recv : stream X -> rres Y * stream X) (s : stream X) : stream Y :=
-  match fuel with
-  | O => []
-  | S f =>
-      match recv s with
-      | (RVal y, s') => Val y :: read_all f recv s'
-      | (RErr e, s') => Bad e :: read_all f recv s'
-      | (REOF, _) => []
+(* slices *)
+Definition go_index {A} (d : A) (l : list A) (i : nat) : A := nth i l d.
+Definition go_slice_to {A} (l : list A) (j : nat) : list A := firstn j l.        (* l[:j] *)
+Definition go_slice_from {A} (l : list A) (i : nat) : list A := skipn i l.       (* l[i:] *)
+Definition go_isnil {A} (o : option A) : bool := match o with None => true | Some _ => false end.
+
+(* for i := range [0, n) { body } with break: body returns the new state and "break" *)
+Fixpoint range_brk {S} (is : list nat) (f : S -> nat -> S * bool) (s : S) : S :=
+  match is with
+  | [] => s
+  | i :: r => let '(s', b) := f s i in if b then s' else range_brk r f s'
+  end.
+
+(* arrayReader *)
+Record arrd : Type := mkArrd { ar_arr : list N; ar_index : nat }.
+Definition set_ar_index (a : arrd) (i : nat) : arrd := mkArrd (ar_arr a) i.
+
+(* multiStreamReader (without the reflect cases) *)
+Record msrd : Type := mkMsrd { msr_sts : list nat; msr_chosenList : list nat }.
+Definition set_msr_chosenList (m : msrd) (l : list nat) : msrd := mkMsrd (msr_sts m) l.
+
+(* parentStreamReader: the record of Model/Stream.v; subStreamList = p_cur, closedNum = p_closed *)
+Definition set_p_cur (P : parent) (l : list (option nat)) : parent :=
+  mkP (p_src P) (p_items P) (p_eof P) l (p_closed P) (p_srcclosed P) (p_pulls P) (p_got P) (p_sawEOF P).
+Definition set_p_closed (P : parent) (n : nat) : parent :=
+  mkP (p_src P) (p_items P) (p_eof P) (p_cur P) n (p_srcclosed P) (p_pulls P) (p_got P) (p_sawEOF P).
+
+(* calls on other objects, logged in order *)
+Inductive event : Type :=
+| EvCloseSrc                 (* sr.Close() / srw.close() / csr.close(): the reader's own source *)
+| EvCloseRecv (sid : nat)    (* s.closeRecv() *)
+| EvSend (p : gopair)        (* ret.send(chunk, err) *)
+| EvCloseSend.               (* ret.closeSend() *)
+
+(* what Model/Stream.v assumes about the dispatch of the public methods on the kind of reader
+   (recv / close_rd match on the constructor of [rd] in this way; Close of an array reader does
+   nothing), and the test under which Copy returns the reader itself ([OCopy]: n < 2) *)
+Definition recv_dispatch_model : list (string * string) :=
+  [ ("readerTypeStream", "sr.st.recv()"); ("readerTypeArray", "sr.ar.recv()");
+    ("readerTypeMultiStream", "sr.msr.recv()"); ("readerTypeWithConvert", "sr.srw.recv()");
+    ("readerTypeChild", "sr.csr.recv()") ]%string.
+Definition close_dispatch_model : list (string * string) :=
+  [ ("readerTypeStream", "sr.st.closeRecv()"); ("readerTypeArray", "");
+    ("readerTypeMultiStream", "sr.msr.close()"); ("readerTypeWithConvert", "sr.srw.close()");
+    ("readerTypeChild", "sr.csr.close()") ]%string.
+Definition copy_self_cond_model : string := "n<2"%string.
+
+(* ------------------------------------------------------------------ stream.send as select statements
+
+   [stream.send] is a sequence of select statements over the two channels of a stream.  The
+   extractor reads them as data; [run_selects] gives them Go's meaning on the model's stream record
+   (a case is ready when its channel operation can proceed: a receive from the closed-signal
+   channel once closeRecv happened, a send into the item channel while there is room — or when that
+   channel is closed, in which case choosing it panics; a select picks ANY ready case: the choice is
+   the argument [chs]; without a ready case it takes [default] or parks).
+   Proofs/GenAgreeStreamCode.v: for every choice, the extracted statements are [stream_send]. *)
+Inductive selcase : Type :=
+| SelRecvClosed (ret : bool)   (* case <-s.closed: return ret *)
+| SelSendItem (ret : bool)     (* case s.items <- item: return ret *)
+| SelDefault.                  (* default: (fall through to the next statement) *)
+
+Inductive selres : Type := SrReturn (closed sent : bool) | SrFall | SrBlock | SrPanic.
+
+Definition case_ready (s : stream) (c : selcase) : bool :=
+  match c with
+  | SelRecvClosed _ => Nat.ltb 0 (s_rclosed s)
+  | SelSendItem _ => s_sclosed s || Nat.ltb (List.length (s_buf s)) (eff_cap (s_cap s))
+  | SelDefault => false
+  end.
+Definition is_default (c : selcase) : bool := match c with SelDefault => true | _ => false end.
+
+Definition run_select (s : stream) (cs : list selcase) (ch : nat) : selres :=
+  match filter (case_ready s) cs with
+  | [] => if existsb is_default cs then SrFall else SrBlock
+  | c0 :: r =>
+      match nth (Nat.modulo ch (List.length (c0 :: r))) (c0 :: r) c0 with
+      | SelRecvClosed b => SrReturn b false
+      | SelSendItem b => if s_sclosed s then SrPanic else SrReturn b true
+      | SelDefault => SrFall
       end
   end.
 
-(* the item-wise meaning of a converted reader: chunks are converted, ErrNoValue chunks
-   vanish, conversion errors become error items, error items pass *)
-Definition conv_item {X Y} (f : X -> conv Y) (it : item X) : list (item Y) :=
-  match it with
-  | Val x => match f x with CVal y => [Val y] | CNoValue => [] | CErr e => [Bad e] end
-  | Bad e => [Bad e]
+Fixpoint run_selects (s : stream) (x : item) (sel : list (list selcase)) (chs : list nat) : sres * stream :=
+  match sel with
+  | [] => (SPanic, s)
+  | cs :: rest =>
+      match run_select s cs (hd 0 chs) with
+      | SrReturn b sent =>
+          (if b then SClosed else SOk,
+           if sent then mkS (s_cap s) (s_buf s ++ [x]) (s_sclosed s) (s_rclosed s) (s_user s) (s_sent s ++ [x]) (s_deliv s)
+           else s)
+      | SrFall => run_selects s x rest (tl chs)
+      | SrBlock => (SBlock, s)
+      | SrPanic => (SPanic, s)
+      end
   end.
 
-Definition s_convert {X Y} (f : X -> conv Y) (s : stream X) : stream Y := flat_map (conv_item f) s.
-
-(* ---------------------------------------------------------------- values of type any *)
-(* map[string]any{key: v} *)
-Definition wrap_key (k : N) (v : val) : val :=
-  match v with
-  | VS s => VM [(kstr k, s)]
-  | VM m => VM (nest k m)
-  end.
-
-(* v.(map[string]any) without the ok result: a failed assertion panics *)
-Definition as_map (v : val) : res amap :=
-  match v with VM m => Ok m | VS _ => Panic end.
-
-(* v, ok := x.(T) where [has_ty] says which values have the type T *)
-Definition assert_ty (has_ty : val -> bool) (v : val) : option val :=
-  if has_ty v then Some v else None.
-
-(* what flows through the graph engine as `any`: a plain value or a streamReader *)
-Inductive gval : Type :=
-| GV (x : val)
-| GS (s : stream val).
-
-(* value.(streamReader) without the ok result *)
-Definition as_stream (g : gval) : res (stream val) :=
-  match g with GS s => Ok s | GV _ => Panic end.
-
-(* s, ok := item.(streamReader) *)
-Definition stream_of (g : gval) : option (stream val) :=
-  match g with GS s => Some s | GV _ => None end.
-
-(* ---------------------------------------------------------------- handler pairs *)
-(* handlerPair of compose/generic_helper.go: the invoke form and the transform form of one
-   edge / pre-node / pre-branch handler *)
-Record hpair : Type := {
-  hp_invoke : val -> res val;
-  hp_transform : stream val -> stream val
-}.
-
-(* v.invoke(value): the value handlers (defaultValueChecker, the field mapping converter)
-   are written for plain values; a streamReader fails their type test *)
-Definition call_invoke (h : hpair) (g : gval) : res gval :=
-  match g with
-  | GV x => res_map GV (hp_invoke h x)
-  | GS _ => Err e_type
-  end.
-
-(* Go maps keyed by node keys, as association lists *)
-Definition go_get {A} (k : N) (m : list (N * A)) : option A := nlist_get k m.
-
-(* m[k] without the ok result: the zero value when the key is missing *)
-Definition go_at {A} (zero : A) (k : N) (m : list (N * A)) : A :=
-  match nlist_get k m with Some a => a | None => zero end.
-
-(* the handlers a handler manager applies, in order, in their two forms *)
-Definition handlers_value (hs : list hpair) (x : val) : res val :=
-  fold_res (fun v h => hp_invoke h v) hs x.
-
-Definition handlers_stream (hs : list hpair) (s : stream val) : stream val :=
-  fold_left (fun o h => hp_transform h o) hs s.
+(* the other primitives, as the channel operation they consist of *)
+Definition recv_shape_model : list string := [ "item,ok:=<-s.items"; "if!ok{item.err=io.EOF}"; "returnitem.chunk,item.err" ]%string.
+Definition close_send_model : string := "close(s.items)"%string.
+Definition close_recv_model : string := "close(s.closed)"%string.
